@@ -3,6 +3,6 @@ CONSTANTS SmallIds = {1, 2} Widths = {1, 2} MaxTok = 4
   Texts <- CTexts HRs <- CHRs
 CONSTRAINT Bound
 VIEW View
-INVARIANTS TypeOK Refines OnceOnly GoneNotified
-PROPERTIES DeliveredRight OneHandler FiniAll ReserveUnique DefaultFollows
+INVARIANTS TypeOK Refines OnceOnly GoneNotified HeldApart
+PROPERTIES DeliveredRight OneHandler FiniAll SnapshotSilent ReserveUnique DefaultFollows
 CHECK_DEADLOCK FALSE
